@@ -914,7 +914,7 @@ def sanitize(tool, argv):
     out, i = [], 0
     exact = ("-o", "-of") if tool in ("cnfgen", "pbgen") else ("-o",)
     argv = [t for t in argv if not ((t.startswith("-o") and t not in exact) or
-                                    (t.startswith("--o") and "=" in t and not ok(t.split("=", 1)[1])))]
+                                    (t.startswith("--o") and "=" in t and t.split("=", 1)[1] not in ("", "-")))]
     while i < len(argv):
         t = argv[i]
         out.append(t)
@@ -1313,7 +1313,6 @@ def file_commands():
 # ---------------------------------------------------------------------------
 def run_batch(ctx, tag, commands, nsub):
     oc.selfcheck()
-    before = set(os.listdir(os.getcwd()))
     zoo = Zoo()
     try:
         b = Batch(ctx, zoo, tag)
@@ -1322,17 +1321,29 @@ def run_batch(ctx, tag, commands, nsub):
             if safe != cmd["argv"]:
                 ctx.count("size_guard_trimmed")
             cmd["argv"] = sanitize(cmd["tool"], safe)
+            if not writes_only_into_scratch(cmd["tool"], cmd["argv"]):
+                raise RuntimeError("refusing to run %r: it could write outside the scratch directory" % (cmd,))
             b.run(cmd, i)
         b.resample(ctx.rng("c18-resample", tag), nsub)
         b.finish()
     finally:
         zoo.close()
-        stray = sorted(set(os.listdir(os.getcwd())) - before - {"evidence", "replays"})
-        for name in stray:
-            if os.path.isfile(name) and os.path.getsize(name) < 10 ** 7:
-                os.unlink(name)
-        if stray:
-            raise RuntimeError("commands wrote into the working directory: %r" % stray[:5])
+
+
+def writes_only_into_scratch(tool, argv):
+    """The guarantee sanitize() gives, checked on the final argument vector."""
+    exact = ("-o", "-of") if tool in ("cnfgen", "pbgen") else ("-o",)
+    for i, t in enumerate(argv):
+        if t.startswith("-o") and t not in exact:
+            return False
+        if t.startswith("--o") and "=" in t and t.split("=", 1)[1] not in ("", "-"):
+            return False
+        nxt = argv[i + 1] if i + 1 < len(argv) else None
+        if t == "save" and nxt in ("kthlist", "gml", "dot", "dimacs", "matrix"):
+            nxt = argv[i + 2] if i + 2 < len(argv) else None
+        if (is_output_option(t) or t == "save") and nxt is not None and not (nxt.startswith(WRITE_OK) or nxt in ("@dir", "@out", "-", "")):
+            return False
+    return True
 
 
 def case_grammar(ctx, lo, hi):
